@@ -74,6 +74,7 @@ type Contract struct {
 	CallAs     []*CallAs
 	Also       []string  // functype contracts this function must also satisfy
 	CapReq     []*Clause // preconditions on captured variables, asserted where the closure is created
+	Assumes    []*Clause // assumed in the function's own proof, not checked at call sites (listed as assumptions)
 	ModelParams []QVar // kind "model": typed parameters
 	ModelRes    []QVar
 	Ovf        bool
@@ -151,7 +152,7 @@ var clauseKeywords = map[string]bool{
 	"axiom": true, "lemma": true, "props": true, "safety": true, "requires": true, "ensures": true,
 	"modifies": true, "panics": true, "panics-iff": true, "nopanic": true, "loop": true, "decreases": true,
 	"assert": true, "inline": true, "pure": true, "allocates": true, "global": true, "ovf": true, "noovf": true,
-	"uninterpreted": true, "opaque": true, "use": true, "skip": true, "model": true, "call": true, "also": true, "requires-captured": true,
+	"uninterpreted": true, "opaque": true, "use": true, "skip": true, "model": true, "call": true, "also": true, "requires-captured": true, "assumes": true,
 }
 
 var tagRe = regexp.MustCompile(`^([a-z\-]+)\[([A-Z0-9, ]+)\]$`)
@@ -498,6 +499,12 @@ func (cs *ContractSet) LoadContractFile(path, pkgPath string, trusted bool) erro
 					return fail(rc.line, "expected: also functype T")
 				}
 				cur.Also = append(cur.Also, f[1])
+			case "assumes":
+				c, err := mkClause("assumes", rc, len(cur.Assumes))
+				if err != nil {
+					return err
+				}
+				cur.Assumes = append(cur.Assumes, c)
 			case "requires-captured":
 				c, err := mkClause("requires-captured", rc, len(cur.CapReq))
 				if err != nil {
